@@ -78,7 +78,10 @@ Lits == <<
   L("str[1]", "[\"solo\"]", "", "str", 0, FALSE, <<1>>, <<S("solo")>>),
   \* a backslash in a string is a backslash (no escape sequences are documented)
   L("str", "\"C:\\temp\\new_run\"", "", "str", 0, FALSE, <<>>, <<S("C:\\temp\\new_run")>>),
-  L("str", "'a\\nb'", "", "str", 0, FALSE, <<>>, <<S("a\\nb")>>)
+  L("str", "'a\\nb'", "", "str", 0, FALSE, <<>>, <<S("a\\nb")>>),
+  \* a string is the characters written: a form feed is not a line break, neither inside quotes nor inside a block
+  L("str", "\"page one\fpage two\"", "", "str", 0, FALSE, <<>>, <<S("page one\fpage two")>>),
+  L("str", "\"\"\"\nfirst\fpage\nsecond page\n\"\"\"", "", "str", 0, FALSE, <<>>, <<S("first\fpage\nsecond page")>>)
 >>
 
 \* a table literal: header declarations and rows; it denotes one array node per column below the table's name
@@ -99,6 +102,10 @@ Tables == <<
   \* a table with a single row gives arrays of one element
   Tab(<<Col("k", "int", "", "int", 32, <<Q(5,1,0)>>),
         Col("w", "str", "", "str", 0, <<S("x")>>)>>,
-      <<"5 x">>)
+      <<"5 x">>),
+  \* a row is a row whatever its first cell starts with: `#` opens a comment in DIP lines, not inside a block
+  Tab(<<Col("w", "str", "", "str", 0, <<S("#ff0000"), S("#tag"), S("x")>>),
+        Col("k", "int", "", "int", 32, <<Q(1,1,0), Q(2,1,0), Q(3,1,0)>>)>>,
+      <<"#ff0000 1", "#tag 2", "x 3">>)
 >>
 =============================================================================
